@@ -105,6 +105,11 @@ fn in_process(st: &mut Stats, quick: bool) {
         Some("2001:db8::bad"),
         Some("::1"),
         Some("8.8.8.8,"),
+        // elements that are not addresses are skipped, they do not end the list
+        Some("unknown, 127.0.0.5"),
+        Some(", 127.0.0.5"),
+        Some("[2001:db8::1]:4711, 127.0.0.5"),
+        Some("unknown, 8.8.8.8, 203.0.113.50"),
     ];
     let _ = client4;
     let mut jobs = vec![];
